@@ -12,11 +12,11 @@ RULE = (
     "(CreateDerived) or by multiplying/dividing leaf Scalars, finite values, + or -, Scalar or Array "
     "(list/tuple/ndarray). Oracle (independent model): result quantity == left operand's quantity and value == "
     "a.value +/- b.value*prod((slope(u_b)/slope(u_a))**E) (rel 1e-9 of |a|+|b'|); (a+b)-b ~ a (Scalars and Arrays), a op b twice on the same operand objects gives the same values; mag(a+b) ~ mag(b+a). "
-    "Simple exponent-1 quantities additionally over affine units against a.value +/- Convert(u_b->u_a, b.value). "
+    "Simple exponent-1 quantities additionally over affine units against a.value +/- Convert(u_b->u_a, b.value); units with an offset also under exponents -2..3 inside derived operands (1/degC + 1/K, psig2, with or without a second factor), where the ratio is the ratio of the unit sizes. "
     "Non-trivial = operands differ in a unit of a shared type and (some |exponent|>=2 or >=2 quantity types); "
     "distinct key = (instance a, instance b, op, container)."
 )
-ASSUMPTIONS = ["UnitModel slopes come from single-unit float conversions (validated by C01)", "derived quantities over affine units are not generated (no defined ratio)"]
+ASSUMPTIONS = ["UnitModel slopes come from single-unit float conversions (validated by C01)", "for a unit with an offset inside a derived quantity the unit ratio is the ratio of the unit sizes (1/degC against 1/K is 1): offsets only apply to exponent-1 single-unit quantities"]
 BUDGET_S = {"quick": 120, "thorough": 1200}
 N = {"quick": 1200, "thorough": 30000}
 SHARDS = {"quick": 6, "thorough": 16}
@@ -78,6 +78,8 @@ class Checker:
         powered = len(ta) > 1 or any(v != 1 for v in ta.values())
         cname = "same_units" if not differ else ("power_or_multitype" if powered else "exponent1_single_type")
         ctx.cls(cname)
+        if case.get("affine_derived") and differ:
+            ctx.cls("offset_unit_under_exponent")
         if tuple(da) != tuple(dbb):
             ctx.cls("categories_differ")
         ctx.cls("kind_" + kind)
@@ -194,7 +196,42 @@ def _strategies(ch):
             "op": draw(st.sampled_from(["+", "-"])),
         }
 
-    return pair_case(), affine_case()
+    @st.composite
+    def affine_derived_case(draw):
+        """a unit with an offset under an exponent other than 1 (1/degC, psig2, m/degF ...): the unit ratio is the
+        ratio of the unit sizes, the offsets play no part in a derived quantity"""
+        qt = draw(st.sampled_from(aff_qts))
+        e = draw(st.sampled_from([-2, -1, -1, 2, 3]))
+        us = ch.um.units(qt)
+        aff_us = [u for u in us if ch.um.offset[u] != 0]
+        ua_ = draw(st.one_of(st.sampled_from(aff_us), st.sampled_from(us)))
+        ub_ = draw(st.one_of(st.sampled_from(aff_us), st.sampled_from(us)))
+        ca = draw(st.sampled_from(pool.cats[qt]))
+        cb = draw(st.sampled_from(pool.cats[qt]))
+        da, dbb = {ca: [ua_, e]}, {cb: [ub_, e]}
+        if draw(st.booleans()):
+            qt2 = draw(pool.qt_strategy())
+            if qt2 != qt:
+                e2 = draw(st.sampled_from([-1, 1, 2]))
+                c2a = draw(st.sampled_from(pool.cats[qt2]))
+                c2b = draw(st.sampled_from(pool.cats[qt2]))
+                da[c2a] = [draw(st.sampled_from(pool.units[qt2])), e2]
+                dbb[c2b] = [draw(st.sampled_from(pool.units[qt2])), e2]
+        kind = draw(st.sampled_from(["scalar", "scalar", "list", "ndarray"]))
+        n = 1 if kind == "scalar" else draw(st.integers(1, 3))
+        return {
+            "da": da,
+            "db": dbb,
+            "va": draw(st.lists(gen.moderate_values(1e-3, 1e4), min_size=n, max_size=n)),
+            "vb": draw(st.lists(gen.moderate_values(1e-3, 1e4), min_size=n, max_size=n)),
+            "op": draw(st.sampled_from(["+", "-"])),
+            "route_a": draw(st.sampled_from(["direct", "arith"])),
+            "route_b": draw(st.sampled_from(["direct", "arith"])),
+            "kind": kind,
+            "affine_derived": True,
+        }
+
+    return pair_case(), affine_case(), affine_derived_case()
 
 
 def _fix_case(case):
@@ -211,8 +248,15 @@ def run_shard(spec, ctx):
     db = env.new_db("posc")
     with env.pushed(db):
         ch = Checker(ctx, db)
-        pair_case, affine_case = _strategies(ch)
+        pair_case, affine_case, affine_derived_case = _strategies(ch)
         seed = spec["seed"] * 1000 + spec["shard"]
+
+        def t3():
+            @given(affine_derived_case)
+            def test(case):
+                core.guarded(ctx, ch.check_pair, _fix_case(case))
+
+            return test
 
         def t1():
             @given(pair_case)
@@ -230,6 +274,7 @@ def run_shard(spec, ctx):
 
         core.hunt(ctx, t1, seed, spec["n"])
         core.hunt(ctx, t2, seed + 1, max(100, spec["n"] // 3))
+        core.hunt(ctx, t3, seed + 2, max(100, spec["n"] // 3))
 
 
 def replay(case, ctx):
